@@ -100,7 +100,9 @@ XAccept(ev, N, ES, x, r) ==
     [] ev.op = "new" -> r = Shr(x[1], XSh(ev))
     [] OTHER -> (Pre(ev.op, N, ES, x) => Accept(ev.op, ev.sp, N, ES, x, r))
 \* the code also refines the algorithm-level specification AlgoPx (which MCAlgo shows refines Accept for every N)
-AlgoOk(ev, N, x) == (ev.t = "x2" /\ ev.op = "mul" /\ N >= 3) => Shr(ev.r, XSh(ev)) = AlgoMulE2(N, x[1], x[2])
+AlgoOk(ev, N, x) ==
+  /\ (ev.t = "x2" /\ ev.op = "mul" /\ N >= 3) => Shr(ev.r, XSh(ev)) = AlgoMulE2(N, x[1], x[2])
+  /\ (ev.t = "x2" /\ ev.op = "add" /\ N >= 3 /\ AddSamePre(N, x[1], x[2])) => Shr(ev.r, XSh(ev)) = AlgoAddSameE2(N, x[1], x[2])
 GoodX(ev, F, raw) ==
   LET N == F[1] ES == F[2] x == XArgs(ev, raw) IN
   /\ ev.o = "ok"
